@@ -189,6 +189,9 @@ func prehashMsiDir(cdf *comdoc.ComDoc, parent *comdoc.DirEnt, d io.Writer) error
 	sortMsiFiles(files)
 	prehashMsiDirent(parent, d)
 	for _, item := range files {
+		if item.NameLength < 2 || item.NameLength > 64 {
+			return errors.New("invalid name length in MSI directory entry")
+		}
 		name := item.Name()
 		if parent.Type == comdoc.DirRoot && (name == msiDigitalSignature || name == msiDigitalSignatureEx) {
 			continue
